@@ -556,3 +556,54 @@ func convInt(dk types.BasicKind, x value) value {
 	}
 	return mkInt(dk, u&mask(kindBits(dk)))
 }
+
+// concIntBinop2: concrete shifts, division and remainder (operands may differ in kind for shifts).
+func concIntBinop2(op token.Token, xu uint64, kx types.BasicKind, yu uint64, ky types.BasicKind) (value, bool) {
+	w := kindBits(kx)
+	m := mask(w)
+	switch op {
+	case token.SHL, token.SHR:
+		if kindSigned(ky) && sext64(yu, kindBits(ky)) < 0 {
+			return nil, false // negative shift count: let the slow path raise the panic
+		}
+		if op == token.SHL {
+			if yu >= uint64(w) {
+				return mkInt(kx, 0), true
+			}
+			return mkInt(kx, (xu<<yu)&m), true
+		}
+		if kindSigned(kx) {
+			sx := sext64(xu, w)
+			if yu >= uint64(w) {
+				yu = uint64(w - 1)
+			}
+			return mkInt(kx, uint64(sx>>yu)&m), true
+		}
+		if yu >= uint64(w) {
+			return mkInt(kx, 0), true
+		}
+		return mkInt(kx, xu>>yu), true
+	case token.QUO, token.REM:
+		if kx != ky || yu == 0 {
+			return nil, false
+		}
+		if kindSigned(kx) {
+			a, b := sext64(xu, w), sext64(yu, w)
+			if b == -1 {
+				if op == token.QUO {
+					return mkInt(kx, uint64(-a)&m), true
+				}
+				return mkInt(kx, 0), true
+			}
+			if op == token.QUO {
+				return mkInt(kx, uint64(a/b)&m), true
+			}
+			return mkInt(kx, uint64(a%b)&m), true
+		}
+		if op == token.QUO {
+			return mkInt(kx, xu/yu), true
+		}
+		return mkInt(kx, xu%yu), true
+	}
+	return nil, false
+}
